@@ -69,12 +69,12 @@ func (eval Evaluator) Add(op0 *rlwe.Ciphertext, op1 rlwe.Operand, opOut *rlwe.Ci
 	case rlwe.ElementInterface[ring.Poly]:
 
 		// Checks operand validity and retrieves minimum level
-		degree, level, err := eval.InitOutputBinaryOp(op0.El(), op1.El(), op0.Degree()+op1.Degree(), opOut.El())
+		_, level, err := eval.InitOutputBinaryOp(op0.El(), op1.El(), op0.Degree()+op1.Degree(), opOut.El())
 		if err != nil {
 			return fmt.Errorf("cannot Add: %w", err)
 		}
 
-		opOut.Resize(degree, level)
+		opOut.Resize(utils.Max(op0.Degree(), op1.Degree()), level)
 
 		// Generic inplace evaluation
 		eval.evaluateInPlace(level, op0, op1.El(), opOut, eval.GetParameters().RingQ().AtLevel(level).Add)
@@ -99,6 +99,8 @@ func (eval Evaluator) Add(op0 *rlwe.Ciphertext, op1 rlwe.Operand, opOut *rlwe.Ci
 				opOut.Value[i].CopyLvl(level, op0.Value[i]) // Resize step ensures identical size
 			}
 		}
+
+		opOut.Scale = op0.Scale
 
 	case []complex128, []float64, []*big.Float, []*bignum.Complex:
 
@@ -159,12 +161,12 @@ func (eval Evaluator) Sub(op0 *rlwe.Ciphertext, op1 rlwe.Operand, opOut *rlwe.Ci
 	case rlwe.ElementInterface[ring.Poly]:
 
 		// Checks operand validity and retrieves minimum level
-		degree, level, err := eval.InitOutputBinaryOp(op0.El(), op1.El(), op0.Degree()+op1.Degree(), opOut.El())
+		_, level, err := eval.InitOutputBinaryOp(op0.El(), op1.El(), op0.Degree()+op1.Degree(), opOut.El())
 		if err != nil {
 			return fmt.Errorf("cannot Sub: %w", err)
 		}
 
-		opOut.Resize(degree, level)
+		opOut.Resize(utils.Max(op0.Degree(), op1.Degree()), level)
 
 		// Generic inplace evaluation
 		eval.evaluateInPlace(level, op0, op1.El(), opOut, eval.GetParameters().RingQ().AtLevel(level).Sub)
@@ -195,6 +197,8 @@ func (eval Evaluator) Sub(op0 *rlwe.Ciphertext, op1 rlwe.Operand, opOut *rlwe.Ci
 				opOut.Value[i].CopyLvl(level, op0.Value[i]) // Resize step ensures identical size
 			}
 		}
+
+		opOut.Scale = op0.Scale
 
 	case []complex128, []float64, []*big.Float, []*bignum.Complex:
 
